@@ -573,6 +573,7 @@ def run_impl(spec, case, trials=True, crash_budget=None, rng=None):
             believed = m.persistentData
             pobj = m.parameters[act['name']] if act['a'] == 'set' else None
             pstate = (pobj.value, pobj.readerror, pobj.timestamp) if pobj is not None else None
+            callbacks = {n: list(cbs) for n, cbs in m.paramCallbacks.items()}
             m.wlog = []
             fs.reset(act.get('fault'))
             exc = None
@@ -592,6 +593,7 @@ def run_impl(spec, case, trials=True, crash_budget=None, rng=None):
             if trials and act.get('fault') is None and rec['evs'] and not m.writeDict:
                 post = fs.state()
                 post_believed = m.persistentData
+                post_callbacks = m.paramCallbacks
                 nops = len(rec['evs'])
                 via = 'set' if pobj is not None else 'save'
 
@@ -606,6 +608,7 @@ def run_impl(spec, case, trials=True, crash_budget=None, rng=None):
                     for part in ((0, 0.5) if rec['evs'][k][0] == 'write' else (0,)):
                         fs.set_state(pre[0], pre[1])
                         m.persistentData = believed
+                        m.paramCallbacks = {n: list(cbs) for n, cbs in callbacks.items()}
                         fs.reset({'idx': k, 'part': part})
                         e1 = None
                         try:
@@ -624,6 +627,7 @@ def run_impl(spec, case, trials=True, crash_budget=None, rng=None):
                                               'first': t1, 'second': t2, 'data': rec['data']})
                 fs.set_state(post[0], post[1])
                 m.persistentData = post_believed
+                m.paramCallbacks = post_callbacks
         return out
     finally:
         bench.close()
@@ -1227,7 +1231,7 @@ def check_case(ctx, res, spec, case, quick_crash=3, kind='history'):
             res.violations.append({'sig': 'C17:failed-save-not-retried',
                                    'what': f'save ({"update of an auto parameter" if t.get("via") == "set" else "saveParameters()"}) failed '
                                            f'with {t["first"]["exc"] or "an error swallowed by announceUpdate"} at operation {t["k"]} '
-                                           f'({t["first"]["evs"][min(t["k"], len(t["first"]["evs"]) - 1)][:2]}); the next one performed '
+                                           f'({(t["first"]["evs"] or [["?"]])[min(t["k"], len(t["first"]["evs"]) - 1)][:2]}); the next one performed '
                                            f'{len(t["second"]["evs"])} file operations and the file still holds the old snapshot',
                                    'case': dict(full, where=where)})
         elif tag == 'retry-line' and not a['ok']:
